@@ -416,12 +416,21 @@ def handle (line : String) : Out :=
       match (legalMoves s).find? fun r => r.1 == first with
       | Option.none => ⟨"-", "first-move-illegal"⟩
       | some r => ⟨"-", if Outcome.lostIn (n - 1) r.2 then "sound" else "first-move-loses-the-mate"⟩
+  | "legalpos" =>
+    -- legalpos <fen...> : is the position a legal chess position (`Spec.LegalPos`)?  spec only
+    match specOf (rest 1) with
+    | none => ⟨"-", "badfen"⟩
+    | some p => ⟨"-", if Spec.LegalPos p then "1" else "0"⟩
   | "uci" =>
-    -- uci <hex line> <searching 0|1> <artifact 0|1> <book 0|1> <fen...> : one step of the command loop
+    -- uci <hex line> <searching 0|1> <artifact 0|1> <book 0|1>[:<running search ok 0|1>:<a new search ok 0|1>] <fen...> :
+    -- one step of the command loop
     match fromHex parts[1]!, parseFenM (rest 5) with
     | some line, some st =>
-      let sess : Uci.Sess := { pos := st, searching := parts[2]! == "1", artifact := parts[3]! == "1" }
-      match Uci.step (fun _ => parts[4]! == "1") sess line with
+      let flags := parts[4]!.splitOn ":"
+      let runOk := flags[1]?.getD "1" == "1"
+      let newOk := flags[2]?.getD "1" == "1"
+      let sess : Uci.Sess := { pos := st, searching := parts[2]! == "1", artifact := parts[3]! == "1", searchOk := runOk }
+      match Uci.step (fun _ => flags[0]! == "1") sess line (fun _ => newOk) with
       | Option.none => ⟨"panic", "-"⟩
       | some (s', outs, quit) =>
         let enc (o : Uci.Out) : String := match o with
